@@ -63,6 +63,8 @@ def parse_bms(data, lanes: dict) -> dict:
         else:
             parts = ln[1:].split(b" ", 1)
             k = parts[0]
+            # command names are case-insensitive; the 2-character ids of #WAVxx / #BPMxx are kept as written
+            k = k[:3].upper() + k[3:] if len(k) == 5 and k[:3].upper() in (b"WAV", b"BPM") else k.upper()
             v = parts[1] if len(parts) > 1 else None
             if v is not None:
                 hdr[k] = v
